@@ -171,3 +171,34 @@ for tgt, dvar, n_loops in (("cpp", "observed_type_names", 3), ("golang", "observ
         loops=loops, ensures=[("returns-the-collected-errors", "result is final('errors')")],
         pure=[f"aas_core_codegen.{tgt}.naming:", f"{mod}:_human_readable_identifier"],
         opaque=[f"{mod}:_verify_intra_structure_collisions"], use_as_callee=False))
+
+# ---- the two schema targets: property names of one class (own and inherited) that become one JSON / XML name.
+# Nested loops: the map is fresh per class; per property the name is either reported or recorded; at the end of the
+# iteration for a class: if no error has been collected so far, the names of any two of its properties differ (body
+# lemma of the outer loop, from the inner loop's invariants).  The function returns the collected errors.  (That the
+# error list only grows -- so an empty result means it was empty after every class -- is list.append's own semantics;
+# the havoc of the inner loop forgets it, hence the per-class lemma instead of a function-level postcondition.)
+for tgt, fn in (("jsonschema", "json_property"), ("xsd", "xml_property")):
+    mod = f"aas_core_codegen.{tgt}.main"
+    n_at = lambda c, k: f"naming.{fn}({c}.properties[{k}].name)"  # noqa: E731
+    UNITS.append(Contract(
+        f"{mod}:_verify_property_name_collisions", ["C21"], name=f"{tgt}._verify_property_name_collisions",
+        ghost={"gi": "int", "gj": "int"},
+        loops={
+            1: Loop(body_ensures=[
+                ("no-error-so-far-means-distinct-names-in-this-class",
+                 f"implies(len(errors) == 0 and 0 <= gi and gi < gj and gj < len(cls.properties), "
+                 f"{n_at('cls', 'gi')} != {n_at('cls', 'gj')})")],
+                body_twins=[("names-always-distinct",
+                             f"implies(0 <= gi and gi < gj and gj < len(cls.properties), "
+                             f"{n_at('cls', 'gi')} != {n_at('cls', 'gj')})")]),
+            2: Loop(invariants=[
+                ("recorded", f"forall(0, _i, lambda k: {n_at('cls', 'k')} in observed)"),
+                ("distinct-while-no-error",
+                 f"implies(len(errors) == 0 and 0 <= gi and gi < gj and gj < _i, {n_at('cls', 'gi')} != {n_at('cls', 'gj')})"),
+            ],
+                body_ensures=[("every-name-reported-or-recorded", "appended_count(errors) + dict_writes(observed) == 1")],
+                body_twins=[("nothing-happens", "appended_count(errors) + dict_writes(observed) == 0")]),
+        },
+        ensures=[("returns-the-collected-errors", "result is final('errors')")],
+        pure=["aas_core_codegen.naming:"], use_as_callee=False))
